@@ -34,7 +34,7 @@ CHECKS = {
            "oracle: no panic outside the known classes (and only where the model predicts it), compile errors only for large bounds. Partial: stack exhaustion / "
            "memory are outside any Gallina model.",
     'C06': "Proved: a glob that builds has ordered, non-degenerate bounds and no adjacent boundaries at every node (the level-order enumeration is proved to reach "
-           "every descendant; the fuel of both breadth-first traversals of the rule checker is proved adequate for every tree); no concatenation the parser produces holds two adjacent zero-or-more wildcards; and the boundary rule over expansions is sound for every glob without repetitions, however the alternations nest (C06_built_globs_without_repetitions_have_no_adjacent_boundaries: the breadth-first branch check characterised declaratively - every reachable item is processed without error - and an induction that carries the inherited outer context through nested alternations; parsed trees have the shape the branch rules assume). Tie: Ok/Err + rule kind vs the model "
+           "every descendant; the fuel of both breadth-first traversals of the rule checker is proved adequate for every tree); no concatenation the parser produces holds two adjacent zero-or-more wildcards; and the boundary rule over expansions is sound for every glob without repetitions, however the alternations nest (C06_built_globs_without_repetitions_have_no_adjacent_boundaries: the breadth-first branch check characterised declaratively - every reachable item is processed without error - and an induction that carries the inherited outer context through nested alternations; parsed trees have the shape the branch rules assume; the same for adjacent zero-or-more wildcards: C06_built_globs_without_repetitions_have_no_adjacent_zero_or_more_wildcards). Tie: Ok/Err + rule kind vs the model "
            "of the repaired checker. Oracle: Glob::new(e).is_ok() <=> an independent re-statement of the documented rules over expansions of the parse tree (two named "
            "known classes).",
     'C07': "Proved (all inputs): at the level of the documented language an alternation is the union of its branches and a repetition is its body written out a "
@@ -51,7 +51,7 @@ CHECKS = {
            "Oracle: glob matches p <=> prefix joined with a remainder the postfix matches; postfix unrooted; re-partition identity; rebuild of the displayed postfix.",
     'C09': "Proved (partial, stated as such): soundness on the class of patterns all of whose expansions end in a tree wildcard; and the verdict itself for every flat "
            "rule-checked pattern not ending in a separator (C09_flat_always_sound: an Always verdict of the model of the pinned code means the last tree wildcard is "
-           "followed by `*` components only - C09_always_means_open_tail - and then everything beneath a matched path is matched; C09_built_flat_globs_always_sound: for flat globs that build the rule and parser side conditions are discharged). Tie: is_exhaustive() and the negation's "
+           "followed by `*` components only - C09_always_means_open_tail - and then everything beneath a matched path is matched; C09_built_flat_globs_always_sound: for flat globs that build the rule and parser side conditions are discharged); and for every glob that builds and has no repetition, however the alternations nest (C09_built_globs_without_repetitions_always_sound: every expansion is covered by a member of the term of the exhaustiveness fold, an unbounded member means a tree wildcard followed by separators and `*` only, the rule-checker theorems of C06 over expansions make that tail `*`, `*/*`, ...; excluded: the known class trailing_boundary). Tie: is_exhaustive() and the negation's "
            "exhaustive/non-exhaustive partition vs the model of the repaired sequencer. Oracle: for every Always verdict, descendants of matched canonical paths are matched.",
     'C10': "Proved (partial, stated as such; all patterns of the class x all canonical paths): every pattern without repetitions - alternations, concatenations, leaves "
            "and tree wildcards at any nesting - reports a depth variance that contains the component count of every matched canonical path "
